@@ -25,6 +25,8 @@ type shape struct {
 	Tickers int
 }
 
+const dloopDecl = "func dloop() { for { tick() } }\n"
+
 const huge = "4611686018427387904" // 1<<62
 
 var shapes = []shape{
@@ -55,6 +57,18 @@ var shapes = []shape{
 	{Name: "cb-defer", Kind: "tick", Body: "func df() { defer func() { for { tick() } }()\nreturn 1 }\ndf()", CanExit: true},
 	{Name: "cb-nested", Kind: "tick", Body: "try(func() { [1].each(func(x) { sorted([2, 1], func(a, b) { for { tick() } }) }) })", CanExit: true},
 	{Name: "thread-wait-ticking", Kind: "tick", Body: "wt := spawn(func() { for { tick() } })\nwt.wait()", CanExit: true},
+	// --- script functions deferred by a function whose body is looping / blocked when the context ends:
+	// the deferred call is made while the context's error unwinds the function, and must not run on
+	{Name: "defer-fn-loop", Kind: "tick", Body: dloopDecl + "func work() { defer dloop()\nfor { tick() } }\nwork()"},
+	{Name: "defer-closure-loop", Kind: "tick", Body: "func work() { defer func() { for { tick() } }()\nfor { tick() } }\nwork()"},
+	{Name: "defer-nested-loop", Kind: "tick", Body: dloopDecl + "func cleanup() { defer dloop()\nreturn 1 }\nfunc work() { defer cleanup()\nfor { tick() } }\nwork()"},
+	{Name: "defer-recursion-loops", Kind: "tick", Body: dloopDecl + "func drec(n) { defer dloop()\ntick()\nif n < 12 { return drec(n+1) + 1 }\nfor { tick() } }\ndrec(0)"},
+	{Name: "defer-callback-loop", Kind: "tick", Body: dloopDecl + "func work() { defer dloop()\n[1, 2].each(func(v) { for { tick() } }) }\nwork()"},
+	{Name: "defer-go-loop", Kind: "tick", Body: dloopDecl + "func cleanup() { go dloop() }\nfunc work() { defer cleanup()\nfor { tick() } }\nwork()"},
+	{Name: "defer-spawn-loop", Kind: "tick", Body: dloopDecl + "func cleanup() { spawn(dloop) }\nfunc work() { defer cleanup()\nfor { tick() } }\nwork()"},
+	{Name: "defer-fspawn-loop", Kind: "tick", Body: dloopDecl + "func cleanup() { dloop.spawn() }\nfunc work() { defer cleanup()\nfor { tick() } }\nwork()"},
+	{Name: "defer-loop-body-blocked", Kind: "park", Body: dloopDecl + "func work() { defer dloop()\nbc := chan()\nparked()\n<-bc }\nwork()"},
+	{Name: "defer-go-body-blocked", Kind: "park", Body: dloopDecl + "func cleanup() { go dloop() }\nfunc work() { defer cleanup()\nparked()\ntime.sleep(1000000)\nfor { tick() } }\nwork()"},
 	// --- blocked without ticking
 	{Name: "for-empty", Kind: "park", Body: "parked()\nfor { }"},
 	{Name: "recv-op", Kind: "park", Body: "bc := chan()\nparked()\n<-bc", CanExit: true},
